@@ -146,7 +146,9 @@ impl PatchIndexHeader {
         pos += 4;
 
         // Read block descriptors
-        let mut blocks = Vec::with_capacity(block_count as usize);
+        // Each descriptor takes 8 bytes: never reserve more than the input can hold.
+        let max_blocks = (data.len() - pos) / 8;
+        let mut blocks = Vec::with_capacity((block_count as usize).min(max_blocks));
         for _ in 0..block_count {
             if pos + 8 > data.len() {
                 return Err(PatchIndexError::TruncatedHeader {
